@@ -64,6 +64,7 @@ static int   g_turn[SCH_MAXT + 1]; /* futex words; [SCH_MAXT] is main's */
 #define MAXM 8
 static void* g_mtx[MAXM];
 static int   g_owner[MAXM];
+static int   g_depth[MAXM]; /* recursion depth (recursive mutexes may be re-locked by their owner) */
 static int   g_nm;
 static __thread int t_tid = -1;
 
@@ -104,22 +105,48 @@ static int owner_of(void* m)
             return g_owner[i];
     return -1;
 }
-static void set_owner(void* m, int tid)
+static int is_recursive(void* m)
+{
+    return (((pthread_mutex_t*)m)->__data.__kind & 3) == PTHREAD_MUTEX_RECURSIVE_NP;
+}
+static void acquire(void* m, int tid)
 {
     for (int i = 0; i < g_nm; i++)
         if (g_mtx[i] == m)
         {
-            g_owner[i] = tid;
+            if (g_owner[i] == tid)
+                g_depth[i]++;
+            else
+            {
+                g_owner[i] = tid;
+                g_depth[i] = 1;
+            }
             return;
         }
     if (g_nm < MAXM)
     {
         g_mtx[g_nm]   = m;
         g_owner[g_nm] = tid;
+        g_depth[g_nm] = 1;
         g_nm++;
     }
     else
         g_overflow = 1;
+}
+static void release(void* m)
+{
+    for (int i = 0; i < g_nm; i++)
+        if (g_mtx[i] == m)
+        {
+            if (g_depth[i] > 1)
+                g_depth[i]--;
+            else
+            {
+                g_owner[i] = -1;
+                g_depth[i] = 0;
+            }
+            return;
+        }
 }
 
 static int enabled(int t)
@@ -129,8 +156,8 @@ static int enabled(int t)
     if (g_kind[t] == SCH_LOCK)
     {
         int o = owner_of(g_want[t]);
-        if (o >= 0)
-            return 0; /* held (by another thread, or by itself: self-deadlock) */
+        if (o >= 0 && !(o == t && is_recursive(g_want[t])))
+            return 0; /* held by another thread, or by itself on a non-recursive mutex: self-deadlock */
     }
     return 1;
 }
@@ -207,7 +234,7 @@ static void point(int kind, void* m)
     g_status[me] = ST_RUNNING;
     if (kind == SCH_LOCK)
     {
-        set_owner(m, me);
+        acquire(m, me);
         if (g_curop[me] >= 0 && g_curop[me] < SCH_MAXOPS)
             g_lockpts[me][g_curop[me]]++;
     }
@@ -352,9 +379,10 @@ int pthread_mutex_trylock(pthread_mutex_t* m)
     }
     if (g_active && t_tid >= 0)
     {
-        if (owner_of(m) >= 0)
+        int o = owner_of(m);
+        if (o >= 0 && !(o == t_tid && is_recursive(m)))
             return EBUSY;
-        set_owner(m, t_tid);
+        acquire(m, t_tid);
     }
     return real_trylock(m);
 }
@@ -367,6 +395,6 @@ int pthread_mutex_unlock(pthread_mutex_t* m)
         resolve();
     }
     if (g_active && t_tid >= 0)
-        set_owner(m, -1);
+        release(m);
     return real_unlock(m);
 }
